@@ -185,6 +185,39 @@ func c06Run(w *run.Worker) {
 			}
 		}
 	}
+	// statement boundaries: every way a statement can end x every way the next one can begin, over every
+	// separator — the boundary is the line break (or `;`), whatever stands on either side of it
+	{
+		I, S, Id := rt.Int, rt.Str, rt.Id
+		enders := []nodeFn{
+			func() *rt.Node { return rt.Assign("=", Id("a"), I(1)) }, func() *rt.Node { return rt.Assign("=", Id("a"), Id("b")) }, func() *rt.Node { return rt.Call("f", Id("a")) },
+			func() *rt.Node { return rt.Index("a", I(0)) }, func() *rt.Node { return rt.If(Id("a"), rt.Block(Id("b"))) }, func() *rt.Node { return rt.For(nil, nil, nil, rt.Block(rt.Break())) },
+			func() *rt.Node { return rt.Assign("=", Id("x"), rt.List(I(1))) }, func() *rt.Node { return rt.Assign("=", Id("x"), rt.Map(S("k"), I(1))) }, func() *rt.Node { return S("s") },
+			func() *rt.Node { return rt.Attr(Id("a"), Id("b")) }, func() *rt.Node { return rt.Assign("+=", Id("a"), rt.Un("-", Id("b"))) }, func() *rt.Node { return rt.Bool(true) },
+		}
+		starters := []nodeFn{
+			func() *rt.Node { return rt.Un("-", Id("b")) }, func() *rt.Node { return rt.Un("+", Id("b")) }, func() *rt.Node { return rt.Un("!", Id("c")) }, func() *rt.Node { return I(-5) },
+			func() *rt.Node { return rt.Paren(Id("a")) }, func() *rt.Node { return rt.List(I(1)) }, func() *rt.Node { return rt.Map(S("k"), I(1)) }, func() *rt.Node { return S("t") },
+			func() *rt.Node { return rt.NoObjIndex(I(0)) }, func() *rt.Node { return rt.Assign("=", rt.Un("-", Id("b")), I(1)) }, func() *rt.Node { return rt.Call("g") },
+		}
+		for _, en := range enders {
+			for _, sta := range starters {
+				if !w.Take() {
+					continue
+				}
+				prog := []*rt.Node{en(), sta(), rt.Assign("=", Id("z"), I(0))}
+				for _, g := range []string{"", "\n\n", ";", " # c\n", "\r\n", " ;\n"} {
+					src, _ := rt.PrintProg(prog, func(i, kind int) string {
+						if kind == rt.SiteBetween && g != "" {
+							return g
+						}
+						return ""
+					})
+					c06Check(w, "boundary", prog, src)
+				}
+			}
+		}
+	}
 	// statement sequences: separators between two and three statements
 	st := pStatements()
 	step := int64(7)
